@@ -241,6 +241,9 @@ func runC07(c *Ctx, r *Rec) {
 
 	// ---- D3 nil ladders and D4 dispatch
 	checkDispatch(c, r, cr)
+	checkSwapArmAtEntryDepth(c, r, "D2-exchange-at-entry-depth", cr)
+	checkTraversalSingleThreaded(c, r, "D5-single-threaded", cr)
+	checkTypeLockPairing(c, r, "D5-lock-released", cr.n)
 	checkPrefixOrder(c, r, "agent", "D4-class-prefixes")
 
 	checkReceiverWrites(c, r, "D5-receiver-writes-persist", cr.n)
@@ -548,12 +551,68 @@ func depthBalanceWith(c *Ctx, info *types.Info, fd *ast.FuncDecl, depthF *types.
 		in[b] = unknown
 	}
 	in[g.entry()] = 0
+	stepOf := func(call *ast.CallExpr) int {
+		if cf := calleeOf(info, call); cf != nil {
+			return steppers[cf.Origin()]
+		}
+		return 0
+	}
+	litDelta := func(lit *ast.FuncLit) int {
+		d := 0
+		ast.Inspect(lit.Body, func(x ast.Node) bool {
+			switch s := x.(type) {
+			case *ast.IncDecStmt:
+				if selectorField(info, s.X) == depthF {
+					if s.Tok == token.INC {
+						d++
+					} else {
+						d--
+					}
+				}
+			case *ast.CallExpr:
+				d += stepOf(s)
+			}
+			return true
+		})
+		return d
+	}
 	delta := func(n ast.Node) int {
 		if s, ok := n.(*ast.IncDecStmt); ok && selectorField(info, s.X) == depthF {
 			if s.Tok == token.INC {
 				return 1
 			}
 			return -1
+		}
+		// a deferred step runs at every exit that follows: for the balance at the exits it
+		// counts where it is registered
+		if ds, ok := n.(*ast.DeferStmt); ok {
+			switch f := ast.Unparen(ds.Call.Fun).(type) {
+			case *ast.FuncLit:
+				return litDelta(f)
+			case *ast.CallExpr:
+				// defer v.descend()(): the inner call runs now, what it returns runs at the exit
+				d := stepOf(f)
+				if hd := c.declOf(calleeOf(info, f)); hd != nil && hd.Body != nil {
+					inspectNoLit(hd.Body, func(x ast.Node) bool {
+						if rs, ok := x.(*ast.ReturnStmt); ok && len(rs.Results) == 1 {
+							switch rv := ast.Unparen(rs.Results[0]).(type) {
+							case *ast.FuncLit:
+								d += litDelta(rv)
+							case *ast.SelectorExpr:
+								if sel, ok := info.Selections[rv]; ok {
+									if mfn, ok := sel.Obj().(*types.Func); ok {
+										d += steppers[mfn.Origin()]
+									}
+								}
+							}
+						}
+						return true
+					})
+				}
+				return d
+			default:
+				return stepOf(ds.Call)
+			}
 		}
 		d := 0
 		if len(steppers) > 0 {
